@@ -243,6 +243,22 @@ def run(chk: Check, model):
     rule_enqueue_trigger(chk, view, "C05.trigger")
     rule_queue_discipline(chk, view, "C05.queues")
     rule_reset_complete(chk, view, "C05.reset")
+    # the episode clock: between reset and start every reader of the clock (now / throttle, also from connection threads) waits for the
+    # start time of *this* episode: reset installs a pending future, _set_ts_start resolves it before replacing it by the value
+    r_rs, r_st = view.results["node._reset"], view.results["node._set_ts_start"]
+    fut = r_rs.attr("self", "_ts_start")
+    chk.add("C05.reset", "episode clock: reset installs a pending start time", fut[0] == "call" and T.call_name(fut).endswith("Future") and not fut[2],
+            f"node._reset stores self._ts_start = {T.show(fut)[:80]}, expected a fresh Future() (otherwise a reader that comes before _start uses the previous episode's start time)",
+            chk.loc(view.fi("node._reset")))
+    res = [e for e in r_st.events if e.kind == "call" and e.name == "self._ts_start.set_result"]
+    sto = [e for e in r_st.events if e.kind == "store_attr" and e.name == "self._ts_start"]
+    ok = len(res) == 1 and len(sto) == 1 and res[0].idx < sto[0].idx and res[0].args == (S("ts_start"),) and sto[0].term == S("ts_start") and res[0].guard == T.TRUE
+    chk.add("C05.reset", "episode clock: _set_ts_start wakes the waiting readers with the start time, then stores it", ok,
+            "_set_ts_start must call self._ts_start.set_result(ts_start) on the pending future before replacing it", chk.loc(view.fi("node._set_ts_start")))
+    for k_ in ("node.now", "node.throttle"):
+        waits = [e for e in view.results[k_].events if e.kind == "call" and e.name == "self._ts_start.result"]
+        chk.add("C05.reset", f"episode clock: {k_.split('.')[1]} waits for a pending start time", len(waits) >= 1 and all(mentions(e.guard, "Future") for e in waits),
+                f"{k_} must read self._ts_start.result() while the start time is still a Future", chk.loc(view.fi(k_)))
     rule_eps_filter(chk, view, "C05.eps")
     rule_api_phases(chk, view, "C05.api")
     # the supported class of graphs is parameterised by the look-ahead a node is started with (its source says so: "deadlocks may
